@@ -27,7 +27,7 @@ pub fn make(id: &str, corpus: Arc<Corpus>) -> Option<Box<dyn Scenario>> {
         "C12" => Box::new(c12::C12::new(corpus)),
         "C13" => Box::new(c13::C13),
         "C18" => Box::new(c18::C18 { corpus }),
-        "C20" => Box::new(c20::C20),
+        "C20" => Box::new(c20::C20 { corpus }),
         _ => return None,
     })
 }
